@@ -467,6 +467,15 @@ func init() {
 		env := g.run.env
 		g.schedPoint(&Op{desc: "ws.dial " + url, enabled: func() bool { return true }})
 		env.dialLog = append(env.dialLog, url)
+		// spacing of redials: a dial to a URL that was dialled before, with no sleep in between
+		if env.sleepsAtDial == nil {
+			env.sleepsAtDial = map[string]int{}
+		}
+		if prev, ok := env.sleepsAtDial[url]; ok && prev == len(g.run.sleepLog) {
+			env.unbackedDials++
+			g.run.obs = append(g.run.obs, "redial of "+url+" without any backoff sleep since the previous dial")
+		}
+		env.sleepsAtDial[url] = len(g.run.sleepLog)
 		l := env.listeners[url]
 		fail := func(why string) Value {
 			g.run.obs = append(g.run.obs, "dial "+url+" fails: "+why)
